@@ -552,7 +552,67 @@ def work_iofault(chunk_id, seed, n, binary, wd, part):
                 faulted_call=str(ok[cid].ev(L["fault"]))[:300]))
 
 
-KINDS = {"iofault": work_iofault, "handles": work_handles, "hist": work_hist, "family": work_family, "twin": work_twin,
+def work_stale(chunk_id, seed, n, binary, wd, part):
+    """a standard that is refused leaves nothing behind that a later call can
+    trip over: T16 / U16 with measurement-error modelling refuse a standard
+    whose S matrix is partly unknown only after its parameters have been
+    looked at; the vector parameter it named covers the first band only, and
+    the band is then widened.  With no accepted standard that uses the
+    parameter, the wider frequency vector must be accepted, exactly as in the
+    same history without the refused call."""
+    cases, metas = [], {}
+    for k in range(n):
+        rng = np.random.default_rng([seed, chunk_id, k, 7777])
+        ctype = "T16" if (chunk_id + k) % 2 == 0 else "U16"
+        F = int(rng.integers(2, 5))
+        f0 = float(10 ** rng.uniform(8, 9.5))
+        freqs = list(np.linspace(f0, f0 * rng.uniform(1.5, 2.5), F))
+        wide = list(np.linspace(f0, freqs[-1] * rng.uniform(1.5, 3.0), F))
+        s = R.Script()
+        L = {}
+        s.op("vc=vnacal_create")
+        s.op("vn=vnacal_new_alloc $vc %s 2 2 %d" % (ctype, F))
+        s.rvec("freq", freqs)
+        s.op("vnacal_new_set_frequency_vector $vn @freq")
+        s.rvec("nf", [1e-4])
+        s.op("vnacal_new_set_m_error $vn NULL 1 @nf NULL")
+        s.cvec("pg", [complex(0.3, 0.1 * i) for i in range(F)])
+        s.op("pv=vnacal_make_vector_parameter $vc @freq %d @pg" % F)
+        s.cmat("m", [[0.1 + 0.1j] * F for _ in range(4)])
+        L["refused"] = s.op("vnacal_new_add_single_reflect_m $vn @m 2 2 $pv %d"
+                            % int(rng.integers(1, 3)))
+        s.rvec("wide", wide)
+        L["widen"] = s.op("vnacal_new_set_frequency_vector $vn @wide")
+        cid = "st%d_%d" % (chunk_id, k)
+        cases.append((cid, s.text()))
+        metas[cid] = (L, ctype)
+    ok = run_and_std(binary, cases, wd, part)
+    for cid, text in cases:
+        if cid not in ok:
+            continue
+        L, ctype = metas[cid]
+        er, ew = ok[cid].ev(L["refused"]), ok[cid].ev(L["widen"])
+        if er is None or ew is None or "ret" not in ew:
+            continue
+        part["evaluations"] += 1
+        part["distinct"].add(("stale", ctype))
+        if er.get("ret") == 0:
+            # (the standard was accepted after all: nothing to say)
+            continue
+        part["counters"]["stale_registration_probes"] = part["counters"].get(
+            "stale_registration_probes", 0) + 1
+        if ew.get("ret") != 0:
+            part["violations"].append(dict(
+                key="%s:refused-standard-left-parameter:%s" % (PROP, ctype),
+                desc="%s with measurement-error modelling refused a partly "
+                     "specified standard (%s); the vector parameter it named "
+                     "then made vnacal_new_set_frequency_vector refuse a "
+                     "wider band although no accepted standard uses it: %s"
+                     % (ctype, (er.get("cb") or [[None, ""]])[0][1][:120],
+                        ew), script=text))
+
+
+KINDS = {"stale": work_stale, "iofault": work_iofault, "handles": work_handles, "hist": work_hist, "family": work_family, "twin": work_twin,
          "late": work_late}
 
 
@@ -572,10 +632,12 @@ def main():
     fibin = chk.build("fi")
     if chk.tier == "quick":
         plan = [("hist", 32, 80), ("family", 4, 6), ("twin", 16, 30),
-                ("late", 12, 24), ("handles", 8, 24), ("iofault", 16, 27)]
+                ("late", 12, 24), ("handles", 8, 24), ("iofault", 16, 27),
+                ("stale", 2, 8)]
     else:
         plan = [("hist", 256, 200), ("family", 16, 16), ("twin", 128, 60),
-                ("late", 64, 60), ("handles", 48, 40), ("iofault", 128, 90)]
+                ("late", 64, 60), ("handles", 48, 40), ("iofault", 128, 90),
+                ("stale", 8, 40)]
     payloads = []
     for kind, nchunks, per in plan:
         per = max(1, int(per * chk.args.scale))
